@@ -18,15 +18,6 @@ Fixpoint ns_canon (c : coll) : bool :=
          match l with [] => true | (_, sc) :: l' => ns_canon sc && go l' end) subs
   end.
 
-(** No collection designates one of its *sub-collections* as its default. *)
-Fixpoint no_default_subcollection (c : coll) : bool :=
-  match c with
-  | Coll _ _ _ subs dflt _ _ =>
-      match dflt with Some d => negb (mem d (akeys subs)) | None => true end &&
-      (fix go (l : list (string * coll)) : bool :=
-         match l with [] => true | (_, sc) :: l' => no_default_subcollection sc && go l' end) subs
-  end.
-
 (** * Unfolding the nested fixpoints *)
 Lemma ns_wf_unfold n tasks aliases subs dflt ad cfg :
   ns_wf (Coll n tasks aliases subs dflt ad cfg) =
@@ -48,15 +39,6 @@ Proof.
   cbn [forallb snd]. rewrite IH. reflexivity.
 Qed.
 
-Lemma no_dsub_unfold n tasks aliases subs dflt ad cfg :
-  no_default_subcollection (Coll n tasks aliases subs dflt ad cfg) =
-  match dflt with Some d => negb (mem d (akeys subs)) | None => true end &&
-  forallb (fun kc => no_default_subcollection (snd kc)) subs.
-Proof.
-  cbn [no_default_subcollection]. f_equal. induction subs as [|[k sc] l IH]; [reflexivity|].
-  cbn [forallb snd]. rewrite IH. reflexivity.
-Qed.
-
 Definition sub_twc (subs : list (string * coll)) (k rest : string) : result (taskinfo * dict) :=
   match assoc k subs with Some sc => task_with_config sc rest | None => Err EKey end.
 
@@ -74,7 +56,7 @@ Proof.
   destruct (copy_dict (Node cfg)); [|reflexivity].
   destruct (String.eqb name ""); [|apply Hn].
   destruct dflt as [d|]; [|reflexivity].
-  destruct (String.eqb d ""); [reflexivity|]. rewrite Hn. reflexivity.
+  destruct (String.eqb d ""); [reflexivity|]. apply Hn.
 Qed.
 
 Lemma twc_unfold n tasks aliases subs dflt ad cfg name :
@@ -275,20 +257,19 @@ Qed.
 
 (** * the walk *)
 Lemma walk : forall c,
-  ns_wf c = true -> ns_canon c = true -> no_default_subcollection c = true ->
+  ns_wf c = true -> ns_canon c = true ->
   forall segs t cfgs, ref_path c segs = Some (t, cfgs) -> all_compatible cfgs = true ->
   forall nm, name_rel nm segs ->
   exists d, task_with_config c nm = Ok (t, d) /\ merged_ok cfgs d.
 Proof.
   induction c as [n tasks aliases subs dflt ad cfg IH] using coll_ind'.
-  intros Hwf Hcan Hnd segs t cfgs Href Hall nm Hrel.
-  rewrite ns_wf_unfold in Hwf. rewrite ns_canon_unfold in Hcan. rewrite no_dsub_unfold in Hnd.
+  intros Hwf Hcan segs t cfgs Href Hall nm Hrel.
+  rewrite ns_wf_unfold in Hwf. rewrite ns_canon_unfold in Hcan.
   apply andb_true_iff in Hwf as [Hwf Hwsubs]. apply andb_true_iff in Hwf as [Hwf Hwcfg].
   apply andb_true_iff in Hwf as [Hwf Hwd]. apply andb_true_iff in Hwf as [Hnd1 Hal].
   apply nodupb_NoDup in Hnd1.
   apply andb_true_iff in Hcan as [Hkeys Hcsubs].
-  apply andb_true_iff in Hnd as [Hnd0 Hndsubs].
-  rewrite forallb_forall in Hkeys, Hwsubs, Hcsubs, Hndsubs.
+  rewrite forallb_forall in Hkeys, Hwsubs, Hcsubs.
   rewrite Forall_forall in IH.
   rewrite ref_unfold in Href. rewrite twc_unfold. unfold twc_step.
   rewrite (copy_dict_id (Node cfg) Hwcfg cfg eq_refl).
@@ -298,21 +279,6 @@ Proof.
   { intros k Hk. apply key_ok_spec, Hkeys.
     destruct Hk as [Hk|[Hk|Hk]]; apply in_or_app; [left; exact Hk | right | right];
       apply in_or_app; [left | right]; exact Hk. }
-  (* resolving a plain task name or alias at this level *)
-  assert (forall s s', variant s' s -> assoc s subs = None ->
-            task_here (Coll n tasks aliases subs dflt ad cfg) s = Some t ->
-            contains_char "." s' = false ->
-            twc_nonempty (sub_twc subs) tasks aliases (fun k => has_key k subs) ad cfg s' = Ok (t, cfg))
-    as Htask.
-  { intros s s' Hv Hs Hh Hdf. unfold twc_nonempty.
-    assert (In s (akeys tasks) \/ In s (akeys aliases)) as Hin.
-    { unfold task_here in Hh. cbn [c_tasks c_aliases] in Hh.
-      destruct (assoc s tasks) eqn:E1; [left; eapply assoc_In_keys; eauto|].
-      destruct (assoc s aliases) eqn:E2; [right; eapply assoc_In_keys; eauto | discriminate]. }
-    assert (transform ad s' = s) as Htr.
-    { rewrite (Hv ad). apply Hkey. destruct Hin; auto. }
-    rewrite contains_transform, Hdf, Htr. unfold has_key. rewrite Hs.
-    rewrite (lex_get_here tasks aliases subs Hnd1 Hal n dflt ad cfg s), Hh. reflexivity. }
   (* descending into a sub-collection *)
   assert (forall s sc r segs' cfgs', assoc s subs = Some sc ->
             ref_path sc segs' = Some (t, cfgs') -> cfgs = cfg :: cfgs' -> name_rel r segs' ->
@@ -321,56 +287,61 @@ Proof.
     pose proof (assoc_In _ _ _ Hs) as HIn.
     assert (all_compatible cfgs' = true) as Hall'.
     { cbn [all_compatible] in Hall. apply andb_true_iff in Hall as [_ Hall]. exact Hall. }
-    destruct (IH _ HIn (Hwsubs _ HIn) (Hcsubs _ HIn) (Hndsubs _ HIn) segs' t cfgs' Hr Hall' r Hrel')
+    destruct (IH _ HIn (Hwsubs _ HIn) (Hcsubs _ HIn) segs' t cfgs' Hr Hall' r Hrel')
       as [d' [Hd' Hm']].
     unfold sub_twc. rewrite Hs. simpl snd in Hd'. rewrite Hd'.
     apply merged_step; assumption. }
+  (* the last segment: a collection name (its default, recursively) or a task name / alias *)
+  assert (forall s s', variant s' s -> contains_char "." s' = false ->
+            match sub_ref subs s [] with
+            | Some r => ref_push cfg r
+            | None => match task_here (Coll n tasks aliases subs dflt ad cfg) s with
+                      | Some t0 => Some (t0, [cfg])
+                      | None => None
+                      end
+            end = Some (t, cfgs) ->
+            exists d, twc_nonempty (sub_twc subs) tasks aliases (fun k => has_key k subs) ad cfg s'
+                      = Ok (t, d) /\ merged_ok cfgs d) as Hlast.
+  { intros s s' Hv Hdf Hl. unfold sub_ref in Hl. unfold twc_nonempty.
+    destruct (assoc s subs) as [sc|] eqn:Es.
+    - destruct (ref_path sc []) as [[t' cfgs']|] eqn:Er; [|discriminate].
+      cbn [ref_push] in Hl. inversion Hl; subst t' cfgs.
+      assert (transform ad s' = s) as Htr.
+      { rewrite (Hv ad). apply Hkey. right; right. eapply assoc_In_keys; eauto. }
+      rewrite contains_transform, Hdf, Htr. unfold has_key. rewrite Es.
+      apply (Hdown s sc "" [] cfgs' Es Er eq_refl). left; auto.
+    - destruct (task_here (Coll n tasks aliases subs dflt ad cfg) s) as [t'|] eqn:Eh; [|discriminate].
+      inversion Hl; subst t' cfgs.
+      assert (In s (akeys tasks) \/ In s (akeys aliases)) as Hin.
+      { unfold task_here in Eh. cbn [c_tasks c_aliases] in Eh.
+        destruct (assoc s tasks) eqn:E1; [left; eapply assoc_In_keys; eauto|].
+        destruct (assoc s aliases) eqn:E2; [right; eapply assoc_In_keys; eauto | discriminate]. }
+      assert (transform ad s' = s) as Htr.
+      { rewrite (Hv ad). apply Hkey. destruct Hin; auto. }
+      rewrite contains_transform, Hdf, Htr. unfold has_key. rewrite Es.
+      rewrite (lex_get_here tasks aliases subs Hnd1 Hal n dflt ad cfg s), Eh.
+      exists cfg. split; [reflexivity | apply merged_ok_single; exact Hwcfg]. }
   unfold ref_step in Href.
   destruct segs as [|s [|s2 rest]].
-  - (* empty name: the default *)
+  - (* empty name: the default, looked up like any last segment *)
     destruct Hrel as [[-> _]|[_ HF]];
       [|exfalso; inversion HF as [Hsp0|]; symmetry in Hsp0; exact (split_nonempty _ _ Hsp0)].
     cbn [String.eqb].
     destruct dflt as [d|]; [|discriminate].
-    assert (assoc d subs = None) as Hds.
-    { apply assoc_none. intros H. apply mem_In in H. rewrite H in Hnd0. discriminate. }
-    unfold sub_ref in Href. rewrite Hds in Href.
-    destruct (task_here (Coll n tasks aliases subs (Some d) ad cfg) d) as [t'|] eqn:Eh; [|discriminate].
-    inversion Href; subst t' cfgs.
-    assert (d <> "") as Hdne.
-    { unfold task_here in Eh. cbn [c_tasks c_aliases] in Eh.
-      destruct (assoc d tasks) eqn:E1.
-      - apply (Hkey d). left. eapply assoc_In_keys; eauto.
-      - destruct (assoc d aliases) eqn:E2; [|discriminate].
-        apply (Hkey d). right; left. eapply assoc_In_keys; eauto. }
+    assert (In d (akeys tasks) \/ In d (akeys aliases) \/ In d (akeys subs)) as Hdin.
+    { unfold sub_ref in Href. destruct (assoc d subs) eqn:E0; [right; right; eapply assoc_In_keys; eauto|].
+      unfold task_here in Href. cbn [c_tasks c_aliases] in Href.
+      destruct (assoc d tasks) eqn:E1; [left; eapply assoc_In_keys; eauto|].
+      destruct (assoc d aliases) eqn:E2; [right; left; eapply assoc_In_keys; eauto | discriminate]. }
+    destruct (Hkey d Hdin) as [_ [Hdf Hdne]].
     apply String.eqb_neq in Hdne. rewrite Hdne.
-    assert (contains_char "." d = false) as Hdf.
-    { unfold task_here in Eh. cbn [c_tasks c_aliases] in Eh.
-      destruct (assoc d tasks) eqn:E1.
-      - apply (Hkey d). left. eapply assoc_In_keys; eauto.
-      - destruct (assoc d aliases) eqn:E2; [|discriminate].
-        apply (Hkey d). right; left. eapply assoc_In_keys; eauto. }
-    rewrite (Htask d d (fun _ => eq_refl) Hds Eh Hdf).
-    exists cfg. split; [reflexivity | apply merged_ok_single; exact Hwcfg].
+    apply (Hlast d d (fun _ => eq_refl) Hdf Href).
   - (* one segment *)
     destruct Hrel as [[_ Hx]|[Hne HF]]; [discriminate|].
     apply String.eqb_neq in Hne. rewrite Hne.
     inversion HF as [|s' ? l' ? Hv HF' Hsp]; subst. inversion HF'; subst.
     symmetry in Hsp. apply split_single in Hsp. destruct Hsp as [-> Hdf].
-    unfold sub_ref in Href.
-    destruct (assoc s subs) as [sc|] eqn:Es.
-    + (* a collection name: its default *)
-      destruct (ref_path sc []) as [[t' cfgs']|] eqn:Er; [|discriminate].
-      cbn [ref_push] in Href. inversion Href; subst t' cfgs.
-      assert (transform ad s' = s) as Htr.
-      { rewrite (Hv ad). apply Hkey. right; right. eapply assoc_In_keys; eauto. }
-      unfold twc_nonempty. rewrite contains_transform, Hdf, Htr.
-      unfold has_key. rewrite Es.
-      apply (Hdown s sc "" [] cfgs' Es Er eq_refl). left; auto.
-    + destruct (task_here (Coll n tasks aliases subs dflt ad cfg) s) as [t'|] eqn:Eh; [|discriminate].
-      inversion Href; subst t' cfgs.
-      rewrite (Htask s s' Hv Es Eh Hdf).
-      exists cfg. split; [reflexivity | apply merged_ok_single; exact Hwcfg].
+    apply (Hlast s s' Hv Hdf Href).
   - (* several segments *)
     destruct Hrel as [[_ Hx]|[Hne HF]]; [discriminate|].
     apply String.eqb_neq in Hne. rewrite Hne.
@@ -417,26 +388,26 @@ Proof. destruct o as [v|]; [apply value_eqb_eq; reflexivity | reflexivity]. Qed.
 (** Prop form: every setting of the result comes from the outermost collection
     on the path that defines it; nothing else is in it. *)
 Lemma path_deep_merge c name t cfgs :
-  ns_wf c = true -> ns_canon c = true -> no_default_subcollection c = true ->
+  ns_wf c = true -> ns_canon c = true ->
   ref_path c (segs_of name) = Some (t, cfgs) -> all_compatible cfgs = true ->
   exists d, task_with_config c name = Ok (t, d) /\ wf (Node d) = true /\
             forall p, leaf_at p (Node d) = first_some (map (fun g => leaf_at p (Node g)) cfgs).
 Proof.
-  intros Hwf Hcan Hnd Href Hall.
-  destruct (walk c Hwf Hcan Hnd _ _ _ Href Hall name (name_rel_segs_of name)) as [d [Hd [H1 [H2 _]]]].
+  intros Hwf Hcan Href Hall.
+  destruct (walk c Hwf Hcan _ _ _ Href Hall name (name_rel_segs_of name)) as [d [Hd [H1 [H2 _]]]].
   exists d. auto.
 Qed.
 
 (** Flagship: the model satisfies the executable specification. *)
 Lemma model_meets_spec c name :
-  ns_canon c = true -> no_default_subcollection c = true ->
+  ns_canon c = true ->
   spec_ok c name (model_obs c name) = true.
 Proof.
-  intros Hcan Hnd. unfold spec_ok.
+  intros Hcan. unfold spec_ok.
   destruct (ns_wf c) eqn:Hwf; [|reflexivity].
   destruct (ref_path c (segs_of name)) as [[t cfgs]|] eqn:Href; [|reflexivity].
   destruct (all_compatible cfgs) eqn:Hall; [|reflexivity].
-  destruct (path_deep_merge c name t cfgs Hwf Hcan Hnd Href Hall) as [d [Hd [Hw Hp]]].
+  destruct (path_deep_merge c name t cfgs Hwf Hcan Href Hall) as [d [Hd [Hw Hp]]].
   unfold model_obs. rewrite Hd. rewrite Nat.eqb_refl. cbn [andb].
   unfold deep_merge_ok. rewrite Hw. cbn [andb].
   apply forallb_forall. intros p _. rewrite Hp. apply opt_value_eqb_refl.
@@ -445,33 +416,36 @@ Qed.
 (** Readable corollary: a setting defined by an outer collection on the path
     beats every inner one; a setting defined only further in is preserved. *)
 Lemma outer_wins c name t cfg_outer cfgs_inner p v :
-  ns_wf c = true -> ns_canon c = true -> no_default_subcollection c = true ->
+  ns_wf c = true -> ns_canon c = true ->
   ref_path c (segs_of name) = Some (t, cfg_outer :: cfgs_inner) ->
   all_compatible (cfg_outer :: cfgs_inner) = true ->
   leaf_at p (Node cfg_outer) = Some v ->
   exists d, configuration c name = Ok d /\ leaf_at p (Node d) = Some v.
 Proof.
-  intros Hwf Hcan Hnd Href Hall Hv.
-  destruct (path_deep_merge c name t _ Hwf Hcan Hnd Href Hall) as [d [Hd [_ Hp]]].
+  intros Hwf Hcan Href Hall Hv.
+  destruct (path_deep_merge c name t _ Hwf Hcan Href Hall) as [d [Hd [_ Hp]]].
   exists d. unfold configuration. rewrite Hd. split; [reflexivity|].
   rewrite Hp. cbn [map first_some]. rewrite Hv. reflexivity.
 Qed.
 
 Lemma inner_preserved c name t cfg_outer cfgs_inner p :
-  ns_wf c = true -> ns_canon c = true -> no_default_subcollection c = true ->
+  ns_wf c = true -> ns_canon c = true ->
   ref_path c (segs_of name) = Some (t, cfg_outer :: cfgs_inner) ->
   all_compatible (cfg_outer :: cfgs_inner) = true ->
   leaf_at p (Node cfg_outer) = None ->
   exists d, configuration c name = Ok d /\
             leaf_at p (Node d) = first_some (map (fun g => leaf_at p (Node g)) cfgs_inner).
 Proof.
-  intros Hwf Hcan Hnd Href Hall Hv.
-  destruct (path_deep_merge c name t _ Hwf Hcan Hnd Href Hall) as [d [Hd [_ Hp]]].
+  intros Hwf Hcan Href Hall Hv.
+  destruct (path_deep_merge c name t _ Hwf Hcan Href Hall) as [d [Hd [_ Hp]]].
   exists d. unfold configuration. rewrite Hd. split; [reflexivity|].
   rewrite Hp. cbn [map first_some]. rewrite Hv. reflexivity.
 Qed.
 
-(** * Refutation of the unguarded statement (F-C17b) *)
+(** * The former witness of F-C17b (repaired in /repo by 432fa0a) *)
+(** root > sub (default = collection inner) > inner > t.  Before the repair
+    [configuration "sub"] lacked inner's [k.deep]; now the default shortcut and
+    the full name give the same deep merge of all three levels. *)
 Definition w_task := mkTask 1 "t" [] false.
 Definition w_inner := Coll (Some "inner") [("t", w_task)] [] [] (Some "t") true
                            [("k", Node [("deep", Leaf (VInt 1))])].
@@ -480,17 +454,11 @@ Definition w_sub := Coll (Some "sub") [] [] [("inner", w_inner)] (Some "inner") 
 Definition w_root := Coll None [] [] [("sub", w_sub)] None true
                           [("k", Node [("top", Leaf (VInt 3))])].
 
-Lemma refuted_default_subcollection :
-  exists c name, ns_wf c = true /\ ns_canon c = true /\
-                 spec_ok c name (model_obs c name) = false.
-Proof. exists w_root, "sub". vm_compute. auto. Qed.
-
-(** the same tree, canonical full name: deep merge of all three levels *)
-Lemma witness_full_name :
-  configuration w_root "sub.inner.t" =
-  Ok [("k", Node [("deep", Leaf (VInt 1)); ("mid", Leaf (VInt 2)); ("top", Leaf (VInt 3))])]
-  /\ configuration w_root "sub" =
-  Ok [("k", Node [("mid", Leaf (VInt 2)); ("top", Leaf (VInt 3))])].
+Lemma default_subcollection_shortcut :
+  ns_wf w_root = true /\ ns_canon w_root = true /\
+  configuration w_root "sub" = configuration w_root "sub.inner.t" /\
+  configuration w_root "sub" =
+  Ok [("k", Node [("deep", Leaf (VInt 1)); ("mid", Leaf (VInt 2)); ("top", Leaf (VInt 3))])].
 Proof. vm_compute. auto. Qed.
 
 (** non-vacuity: a tree inside all guards, with overlapping sections *)
@@ -501,7 +469,7 @@ Definition ex_root := Coll None [("top", mkTask 2 "top" [] false)] [] [("inner",
                            [("k", Node [("x", Leaf (VInt 9)); ("y", Leaf (VStr "o"))])].
 
 Lemma example_guards :
-  ns_wf ex_root = true /\ ns_canon ex_root = true /\ no_default_subcollection ex_root = true /\
+  ns_wf ex_root = true /\ ns_canon ex_root = true /\
   (exists t cfgs, ref_path ex_root (segs_of "inner.mt") = Some (t, cfgs) /\ all_compatible cfgs = true
                   /\ List.length cfgs = 2) /\
   configuration ex_root "inner" =
